@@ -132,7 +132,9 @@ def check_ds(c, rec):
         # a companion of a different rank (different root exponent) whose statistics land on the other replica
         zshape = [(13,), (6,)][int(rng.integers(0, 2))] if len(shape) >= 2 else [(5, 5), (7, 3)][int(rng.integers(0, 2))]
       zs = 10 ** rng.uniform(-8, 8)
-      comp = run_ds(cfg, {"w": hist, "z": [(rng.standard_normal(zshape) * zs).astype(np.float32) for _ in range(c["T"])]}, c["T"], mode)
+      # the companion sorts before or after the leaf in the flattened tree (statistics are packed in that order)
+      zkey = "a" if rng.random() < 0.5 else "z"
+      comp = run_ds(cfg, {"w": hist, zkey: [(rng.standard_normal(zshape) * zs).astype(np.float32) for _ in range(c["T"])]}, c["T"], mode)
     # one block optimised completely alone (its own optimizer instance: no other statistic to be padded to)
     sizes = [min(tuple(sl_.stop - sl_.start for sl_ in sl)) for sl in slices]
     jalone = int(np.argmin(sizes))
